@@ -20,17 +20,22 @@ import (
 )
 
 func init() {
-	cvxMakeProxy = func(w *cvxWorld, cfg config.Proxy, accessLog bool) http.Handler {
+	cvxMakeProxy = func(w *cvxWorld, o cvxWire) http.Handler {
+		cfg, accessLog := o.cfg, o.accessLog
+		tr := w.upTr
+		if o.rTimeout {
+			tr = w.upTrTimeout
+		}
 		pick := route.Picker["rnd"]
 		match := route.Matcher["prefix"]
 		gc := route.NewGlobCache(4096)
 		dp := metrics.DiscardProvider{}
 		p := &HTTPProxy{
 			Config:            cfg,
-			Transport:         w.upTr,
-			InsecureTransport: w.upTr,
+			Transport:         tr,
+			InsecureTransport: tr,
 			Lookup: func(r *http.Request) *route.Target {
-				return route.GetTable().Lookup(r, r.Header.Get("trace"), pick, match, gc, false)
+				return route.GetTable().Lookup(r, r.Header.Get("trace"), pick, match, gc, o.noGlob)
 			},
 			Stats: HttpStatsHandler{
 				Requests:        dp.NewHistogram("requests"),
